@@ -52,18 +52,23 @@ def infer_redirection(url, recursive=True):
         obvious_redirect_match = re.search(OBVIOUS_REDIRECTS_RE, url)
 
         if obvious_redirect_match is not None:
-            if obvious_redirect_match.group(1) == "q":
-                if "/url?q=" not in url and "/redirect" not in url:
+            # NOTE: the key was matched whatever its case, and so are the
+            # markers and the scheme of the target
+            if obvious_redirect_match.group(1).lower() == "q":
+                lowered_url = url.lower()
+
+                if "/url?q=" not in lowered_url and "/redirect" not in lowered_url:
                     return url
 
             potential_target = unquote(obvious_redirect_match.group(2))
+            potential_scheme = potential_target[:8].lower()
 
             # Basic HTTPS
-            if potential_target.startswith("https://") and len(potential_target) > 8:
+            if potential_scheme.startswith("https://") and len(potential_target) > 8:
                 target = potential_target
 
             # Basic HTTP
-            elif potential_target.startswith("http://") and len(potential_target) > 7:
+            elif potential_scheme.startswith("http://") and len(potential_target) > 7:
                 target = potential_target
 
             # Basic relative url
